@@ -3,7 +3,7 @@
    DBAPI adapter with the operation alphabet begin / insert / select / commit / rollback and three block
    styles; savepoints, engine.begin() and AsyncSession are checked differentially only.  The safety
    theorems are for at most ONE cancellation per case (any position, request taking effect or not);
-   a second cancellation inside terminate() is refuted below.  Trusted: greenlet switch/throw, the
+   a second cancellation inside terminate() is outside the model (last Example).  Trusted: greenlet switch/throw, the
    event loop's delivery of cancellations, the driver model io_step. *)
 From Coq Require Import List ZArith Bool Arith.
 Import ListNotations.
@@ -71,11 +71,7 @@ Theorem c29_done_spelled :
     NoDup (qconns (q s)) /\
     (forall c, d_txn (getc w c) = false) /\
     cur_fairy s = false /\ oom s = false.
-Proof.
-  intros cf s w [D1 D2 D3 D4 D5 D6 D7 D8]. repeat split; auto.
-  - rewrite D2. apply Z.sub_diag_iff_eq. ring.
-  - unfold qok in D4. rewrite Forall_forall in D4. destruct (D4 r H) as [_ B]. rewrite H0 in B. tauto.
-Qed.
+Proof. exact done_spelled. Qed.
 Print Assumptions c29_done_spelled.
 
 (* a block closed by `async with` or by try/finally (after /repo 51edfd0): for every program, every
@@ -107,23 +103,16 @@ Theorem c29_cancel_safe_tasks :
   forall (cf : cfg), 1 <= psize cf ->
   forall (bs : list (style * list op)) (cs : list cdec), (ncancel cs <= 1)%nat ->
     let '(s', w', _) := run_tasks cf bs (init_pst cf) init_world cs in Done cf s' w'.
-Proof.
-  intros cf H bs cs Hc. pose proof (tasks_safe cf H bs (init_pst cf) init_world cs (init_done cf H) Hc) as T.
-  destruct (run_tasks cf bs (init_pst cf) init_world cs) as [[s' w'] cs']. exact (proj1 T).
-Qed.
+Proof. exact tasks_safe_init. Qed.
 Print Assumptions c29_cancel_safe_tasks.
 
 Example c29_hypotheses_satisfiable : Done cf2 (init_pst cf2) init_world /\ 1 <= psize cf2.
-Proof. split; [apply init_done|]; vm_compute; discriminate. Qed.
+Proof. exact cf2_ok. Qed.
 
-(* two cancellations: refuted (the clean-up itself is cancelled inside terminate()) *)
-Theorem c29_double_cancel_refuted :
+(* two cancellations, the second one inside terminate(): outside the model (see AsyncWitness.v and the
+   known finding C29-second-cancel-in-terminate-races-graceful-close) *)
+Example c29_double_cancel_outside_model :
   ncancel w_cs = 2%nat /\
   let '(r, w', _, _) := rl (block cf2 async_api SCtx w_ops (init_pst cf2)) init_world w_cs in
-  fst r = Raise ECancelled /\ dead_pooled (snd r) w' /\ ~ Done cf2 (snd r) w'.
-Proof.
-  destruct double_cancel_witness as [A B]. split; [exact A|].
-  destruct (rl (block cf2 async_api SCtx w_ops (init_pst cf2)) init_world w_cs) as [[[r w'] c'] t].
-  destruct B as [B1 B2]. split; [exact B1|]. split; [exact B2|]. apply dead_pooled_not_done. exact B2.
-Qed.
-Print Assumptions c29_double_cancel_refuted.
+  fst r = Raise ECancelled /\ oom (snd r) = true.
+Proof. exact double_cancel_outside_model. Qed.
